@@ -73,6 +73,8 @@ func c28(r *core.Report, p *core.Prog, thorough bool) {
 	r.Rule("C28.guards", "in ApplyBlockStateChange every setClientState / SetStateStatus(StateSynched) is dominated by: b.Hash == bsc.Block; bytes.Equal(b.ClientStateHash, bsc.Hash); len(bsc.Nodes) == b.StateChangesCount (unconditional); MergeDB(...) error-free on the installed trie; bytes.Equal(b.ClientStateHash, <installed trie>.GetRoot()) evaluated after the merge")
 	r.Rule("C28.merge-args", "MergeDB receives bsc.GetNodeDB(), bsc.GetRoot().GetHashBytes() and bsc.GetDeadNodes() of the same change set")
 	r.Rule("C28.untouched", "no other instruction or callee of ApplyBlockStateChange writes Block.ClientState, ClientStateHash or stateStatus; both installs happen together")
+	r.Rule("C28.node-set-validated", "PartialState.ComputeProperties (run on every decoded change set) succeeds only after: db size == number of received nodes; ComputeRoot() on the db built from them returned without error (it rejects node sets with members unreachable from the root); the computed root's hash equals the claimed Hash; the installed mndb/root are that db and that root")
+	c28NodeSet(r, p)
 	r.Rule("C28.locked", "ApplyBlockStateChange holds b.stateMutex (Lock; defer Unlock) before anything else")
 	fn := p.Func("(*" + pkgBlock + ".Block).ApplyBlockStateChange")
 	setCS := p.Func("(*" + pkgBlock + ".Block).setClientState")
@@ -291,4 +293,85 @@ func c28(r *core.Report, p *core.Prog, thorough bool) {
 	}
 	r.Pass("C28.untouched", "ApplyBlockStateChange:other-callees", p.Pos(fn.Pos()), fmt.Sprintf("%d first-party callees besides the two installs; none reaches a writer of ClientState/ClientStateHash/stateStatus (%d writer functions in the module)", nCalls-2, len(writers)))
 	r.Floor("C28.untouched", "writer functions of the state fields", len(writers), 2)
+}
+
+func c28NodeSet(r *core.Report, p *core.Prog) {
+	fn := p.Func("(*" + pkgState + ".PartialState).ComputeProperties")
+	if fn == nil {
+		r.Unresolved("C28.node-set-validated", "PartialState.ComputeProperties")
+		return
+	}
+	var cr []*ssa.Call
+	for _, b := range fn.Blocks {
+		for _, in := range b.Instrs {
+			if c, ok := in.(*ssa.Call); ok && core.MethodName(c.Common()) == "ComputeRoot" {
+				cr = append(cr, c)
+			}
+		}
+	}
+	if !r.Check(len(cr) == 1, "C28.node-set-validated", "ComputeProperties:computes-root", p.Pos(fn.Pos()), fmt.Sprintf("%d ComputeRoot calls (looking the claimed hash up in the db does not validate the rest of the node set)", len(cr))) {
+		return
+	}
+	c := cr[0]
+	r.Check(core.ErrLeadsToFailure(c), "C28.node-set-validated", "ComputeProperties:root-error-rejects", p.Pos(c.Pos()), "a node set that does not form one tree is rejected")
+	// the db is the one built from the received nodes
+	db := core.Receiver(c.Common())
+	fromNodes := false
+	if e, ok := db.(*ssa.Extract); ok {
+		if bc, ok := e.Tuple.(*ssa.Call); ok && bc.Call.StaticCallee() != nil && len(bc.Call.Args) > 0 && bc.Call.Args[0] == ssa.Value(fn.Params[0]) {
+			fromNodes = true
+		}
+	}
+	r.Check(fromNodes, "C28.node-set-validated", "ComputeProperties:db-from-received-nodes", p.Pos(c.Pos()), "the root is computed on the db built by the change set's own newNodeDB()")
+	exits := core.SuccessExits(fn)
+	okAll := len(exits) > 0
+	why := ""
+	for _, ret := range exits {
+		size, hash := false, false
+		for _, f := range core.FactsAt(ret.Block()) {
+			cv, taken := stripNot(f.Cond, f.Taken)
+			if bo, ok := cv.(*ssa.BinOp); ok {
+				eq := (bo.Op == token.EQL && taken) || (bo.Op == token.NEQ && !taken)
+				_, lx := FlowLoads(bo.X)
+				_, ly := FlowLoads(bo.Y)
+				hasSize, hasLen := false, false
+				for _, l := range append(lx, ly...) {
+					if cc, ok := l.(*ssa.Call); ok {
+						if core.MethodName(cc.Common()) == "Size" {
+							hasSize = true
+						}
+						if core.CalleeName(cc.Common()) == "builtin.len" {
+							hasLen = true
+						}
+					}
+				}
+				fs1, _ := FlowLoads(bo.X)
+				fs2, _ := FlowLoads(bo.Y)
+				nodesRead := fs1["PartialState.Nodes"] || fs2["PartialState.Nodes"]
+				if eq && hasSize && hasLen && nodesRead {
+					size = true
+				}
+			}
+			if cc, ok := cv.(*ssa.Call); ok && taken && core.CalleeName(cc.Common()) == "bytes.Equal" {
+				a0, _ := FlowLoads(cc.Call.Args[0])
+				a1, _ := FlowLoads(cc.Call.Args[1])
+				_, l0 := FlowLoads(cc.Call.Args[0])
+				_, l1 := FlowLoads(cc.Call.Args[1])
+				fromRoot := false
+				for _, l := range append(l0, l1...) {
+					if l == ssa.Value(c) {
+						fromRoot = true
+					}
+				}
+				if fromRoot && (a0["PartialState.Hash"] || a1["PartialState.Hash"]) {
+					hash = true
+				}
+			}
+		}
+		if !size || !hash {
+			okAll = false
+			why = fmt.Sprintf("success exit at %s: size-check=%v root-hash-check=%v", p.Pos(ret.Pos()), size, hash)
+		}
+	}
+	r.Check(okAll, "C28.node-set-validated", "ComputeProperties:success-needs-size-and-root-hash", p.Pos(fn.Pos()), "every success exit follows db size == len(Nodes) and bytes.Equal(computed root hash, claimed Hash); "+why)
 }
